@@ -29,7 +29,7 @@ class AbstractWalkModelDiGraph(ABC):
         subset_constraints_coverage: float = 1,
         optimization_options: dict = None,
         solver_options: dict = {},
-        solve_statistics: dict = {},
+        solve_statistics: dict = None,
     ):
         """
         Parameters
@@ -139,7 +139,8 @@ class AbstractWalkModelDiGraph(ABC):
                 utils.logger.error(f"{__name__}: subset_constraints_coverage must be in the range (0, 1]")
                 raise ValueError("subset_constraints_coverage must be in the range (0, 1]")
 
-        self.solve_statistics = solve_statistics
+        # (a fresh dictionary per model: a mutable default argument would be shared by all models that do not pass their own)
+        self.solve_statistics = solve_statistics if solve_statistics is not None else {}
         self.edge_vars = {}
         self.edge_vars_sol = {}
         self.subset_vars = {}
